@@ -161,6 +161,66 @@ def emitter_fact(ctx):
         pass
 
 
+# ---- the emitter under contract (emission protocol) ---------------------------------------------------------------------------------
+def _emit_calls(m):
+    """`os << a << "lit" "lit2" << b;` -> EMIT_TOK(a); EMIT_LIT("lit" "lit2"); EMIT_TOK(b);  (order preserved)"""
+    import re as _re
+    body = m.group(1)
+    # split on << outside string literals
+    parts, cur, i, instr = [], "", 0, False
+    while i < len(body):
+        c = body[i]
+        if c == '"' and (i == 0 or body[i - 1] != "\\"):
+            instr = not instr
+        if not instr and body.startswith("<<", i):
+            parts.append(cur.strip())
+            cur = ""
+            i += 2
+            continue
+        cur += c
+        i += 1
+    parts.append(cur.strip())
+    out = []
+    for part in parts:
+        if not part:
+            continue
+        if part.startswith('"'):
+            out.append("EMIT_LIT(%s);" % part)
+        elif part == "policy_argument":
+            out.append("EMIT_TOK(policy_argument);")
+        else:
+            out.append("EMIT_TOK(TOK_OTHER);")
+    return " ".join(out)
+
+
+EMITTER = "mfront/src/CodeGeneratorUtilities.cxx"
+EMITTER_BODIES = [
+    dict(name="policy_argument_lambda", file=EMITTER, pattern=r"const auto policy_argument = \[&physicalBounds, &policy\]\(\) -> std::string", rules=[
+        {"name": "non-empty policy text", "re": r"return \", \" \+ std::string\{policy\};", "sub": "return POLICY_PRESENT;", "min": 1, "max": 1},
+        {"name": "empty policy text", "re": r"return \"\";", "sub": "return POLICY_ABSENT;", "min": 1, "max": 1},
+        {"name": "no unmapped C++ may remain", "forbid": r"std::|\+"}]),
+    dict(name="writeBoundsChecks", file=EMITTER, pattern=r"static void writeBoundsChecks\(std::ostream& os,", rules=[
+        {"name": "variable description accessors", "re": r"\bv\.(hasPhysicalBounds|hasBounds)\(\)", "sub": r"v_\1()", "min": 2},
+        {"name": "bounds selection (content abstracted)", "re": r"const auto& bounds = physicalBounds \? v\.getPhysicalBounds\(\) : v\.getBounds\(\);", "sub": "", "min": 1, "max": 1},
+        {"name": "numeric_type lambda (text of the cast: abstracted)", "drop_block": r"const auto numeric_type = \[&v\] \{", "sub": "", "min": 1},
+        {"name": "numeric_type lambda call tail", "re": r"^(\s*)\(\);", "sub": r"\1;", "flags": 8},
+        {"name": "this_pointer text (abstracted)", "re": r"const auto this_pointer = addThis \? \"this->\" : \"\";", "sub": "", "min": 1, "max": 1},
+        {"name": "policy_argument lambda -> extracted function", "drop_block": r"const auto policy_argument = \[&physicalBounds, &policy\]\(\) -> std::string \{", "sub": "const int policy_argument = policy_argument_lambda(physicalBounds)", "min": 1},
+        {"name": "immediately-invoked lambda: call tail", "re": r"policy_argument_lambda\(physicalBounds\)\(\);", "sub": "policy_argument_lambda(physicalBounds);", "min": 1, "max": 1},
+        {"name": "os << ... statements -> emission calls", "re": r'\bos << ((?:"(?:\\.|[^"\\])*"|[^;"])*);', "sub": _emit_calls, "min": 6},
+        {"name": "bounds type", "re": r"bounds\.boundsType", "sub": "bounds_boundsType", "min": 3},
+        {"name": "enumerators", "re": r"VariableBoundsDescription::", "sub": "VariableBoundsDescription_", "min": 3},
+        {"name": "tfel::raise -> ghost exception", "re": r"tfel::raise\([^;]*\);", "sub": "{ g_threw = 1; return; }", "min": 1, "max": 1},
+        {"name": "no unmapped C++ may remain", "forbid": r"std::|<<|\bos\b|\[&"}]),
+]
+
+
+def emitter_jobs(ctx):
+    tpl = os.path.join(ctx.spec_dir, "emitter.c.in")
+    return [Job("emitter_writeBoundsChecks", tpl, bodies=EMITTER_BODIES, enforce="writeBoundsChecks", unwind=64, min_obligations=4, drop_checks=["--conversion-check"],
+                expect_labels=["every-standard-bounds-check-is-emitted-with-the-policy-argument", "physical-bounds-checks-are-emitted-without-policy-hence-Strict"])]
+
+
 def run(ctx):
     ctx.assume("std::string / std::to_string message building is dropped (message-only statements, must-fire rules)",
                "[[noreturn]] throwOutOf*Exception really throws (src/Material/BoundsCheck.cxx is not under contract): modelled by a ghost flag and end of path",
@@ -168,4 +228,5 @@ def run(ctx):
                "qt::getValue()/base_type_cast return the underlying value (assumed contract)")
     emitter_fact(ctx)
     jobs = build(ctx)
-    run_jobs(ctx, jobs)
+    ctx.assume("emitter (writeBoundsChecks in mfront/src/CodeGeneratorUtilities.cxx): every `os << ...` statement is rendered as EMIT_LIT / EMIT_TOK calls in the same order and control flow; a ghost automaton checks that each emitted BoundsCheck call carries the policy argument (standard bounds) or none (physical bounds, hence the Strict default); the text of names, casts and bound values is abstracted")
+    run_jobs(ctx, jobs + emitter_jobs(ctx))
